@@ -1,7 +1,9 @@
 #!/bin/sh
-# tools/mkcopy.sh <name>: private working copy of /verif for a builder, at /tmp/w/<name>/verif
+# tools/mkcopy.sh <name>: private working copy of the COMMITTED /verif for a builder, at /tmp/w/<name>/verif
 set -e
 d=/tmp/w/$1/verif
-mkdir -p "$d"
-rsync -a --exclude .git --exclude replays --exclude harness-alt /verif/ "$d/"
+rm -rf "$d"; mkdir -p "$d"
+git -C /verif archive HEAD | tar -x -C "$d"
+# warm build caches (best effort): compiled lean + cargo target of the main tree
+[ -d /verif/lean/.lake ] && rsync -a /verif/lean/.lake "$d/lean/" 2>/dev/null || true
 echo "$d"
